@@ -21,6 +21,7 @@ HERE = os.path.dirname(os.path.abspath(__file__))
 CONDS_FILE = os.path.join(HERE, 'ch', 'c20_conds.py')
 
 ASSUMPTIONS = [
+    'cache jobs (SX): the cache database is the symx.sqlmini stand-in (filter / order_by evaluated over rows with symbolic block height, block position, amounts, sequence numbers; one relevant node per cached transaction); paging counterexamples are replayed on a real sqlite cache filled through store_transaction / store_address',
     'CrossHair 0.0.110 symbolic execution (z3) of the real functions; all condition parameters are ints/bools',
     'provider clients are replaced by the fake class c20_common.FakeClient registered as bitcoinlib.services.c20fake: a '
     'provider\'s behaviour is one fixed outcome per condition (answers / raises ClientError (.msg) / raises an '
@@ -47,7 +48,7 @@ ASSUMPTIONS = [
     'without inputs/outputs, so transaction_update_spents has nothing to rewrite',
 ]
 BOUNDS = {
-    'quick': '_provider_execute: 3 providers x outcomes {answer, ClientError, False, AttributeError raised, method '
+    'quick': 'Cache (SX): _parse_db_transaction with every version / locktime / sequence / outpoint index (32 bit) and amounts <= 21e14; gettransactions(after_txid) over every placement of <= 3 cached transactions (height 1..10^6, position 0..5000). _provider_execute: 3 providers x outcomes {answer, ClientError, False, AttributeError raised, method '
              'missing} x all 6 strict priority orders x max_errors 1..4 x max_providers 1|2|3; plus outcome set {answer, '
              'exception without .msg, False, method missing}, ignore_priority, one provider without api key (smaller '
              'ranges, see table).  Wrappers: 2 providers x outcomes {answer, ClientError, False} x max_errors 1..2, '
@@ -58,8 +59,9 @@ BOUNDS = {
                 'ClientError, False, AttributeError} x all 24 priority orders x max_errors 1..4 x max_providers 1..2; '
                 'every wrapper condition also with 3 providers and max_errors 1..3',
 }
-OUTSIDE = ('The real Cache class (SQLAlchemy queries, expiry, _parse_db_transaction: that a transaction read back from '
-           'the database equals the one stored) and the real provider clients / HTTP layer are not executed; providers '
+OUTSIDE = ('Of the real Cache class only _parse_db_transaction (one input, one output) and gettransactions(after_txid=..) '
+           'are executed (SX jobs sx_cache_*, harness/c20sx.py); store_* (ORM writes), expiry, getutxos / getblock / '
+           'getblocktransactions paging and the real provider clients / HTTP layer are not executed; providers '
            'that change behaviour between two calls (flaky), time-outs as such (modelled as an exception), equal '
            'priorities (random tie-break), more than 4 providers, getblock/getrawblock/getinfo/getinputvalues; '
            'blockcount with an expired cached count present is checked for counts in 1..4 only (the library formats '
@@ -305,6 +307,8 @@ def jobs(tier):
         j = Job(c.name, engine='ch', ch_file=CONDS_FILE, ch_func=c.func, ch_timeout=c.timeout, note=c.proves, known_finding=kfid)
         j.cost = c.cost
         out.append(j)
+    from harness import c20sx              # cache part (engine SX over the sqlmini stand-in database)
+    out += c20sx.jobs(tier)
     return out
 
 
